@@ -10,6 +10,7 @@ mod numops;
 mod linalg;
 mod fxops;
 mod curveops;
+mod splineops;
 
 fn main() {
     let path = std::env::args().nth(1).expect("usage: vreplay <scenarios.json>");
@@ -37,6 +38,7 @@ fn run(sc: &Value) -> Value {
         "linalg" => linalg::run(sc),
         "fx" => fxops::run(sc),
         "curve" => curveops::run(sc),
+        "bspl" | "ppspline" => splineops::run(sc),
         k if k.starts_with("number") || k == "set_order" || k == "from" => numops::run(sc),
         _ => misc::run(sc),
     }
